@@ -329,6 +329,7 @@ func runC17(c C17Case) *Outcome {
 		}
 	}
 	var log []string
+	var digs []string // per-step digests of everything observable (determinism self-test)
 	fail := func(sig, f string, a ...any) *Outcome {
 		o.Violation = fmt.Sprintf(f, a...) + fmt.Sprintf("\n  main database: %s; env %v; markers %v\n  steps:\n    %s", c.MainKind, c.Env, c.Markers, strings.Join(log, "\n    "))
 		o.Sig = "C17/" + sig
@@ -371,6 +372,7 @@ func runC17(c C17Case) *Outcome {
 			o.Faults[k] += v
 		}
 		log = append(log, fmt.Sprintf("%s -> %s", quoteArgs(args), exitDesc(res)))
+		digs = append(digs, stepDigest(res))
 		// (1) every command runs
 		if res.Exit != "exit" {
 			cmdName := "root"
@@ -530,7 +532,7 @@ func runC17(c C17Case) *Outcome {
 	o.Evals = w.steps
 	o.NonTrivial = searches > 0
 	o.Behaviour = c.MainKind + " " + strings.Join(beh, "")
-	o.Digest = digestOf(log)
+	o.Digest = digestOf([]any{log, digs})
 	return o
 }
 
